@@ -755,3 +755,66 @@ func checkV2TreeRules(c *Ctx, l *Loaded) {
 		}
 	}
 }
+
+// checkCpIncrTable: "prefix + 1" as used for exclusive end bounds: walk one
+// iteration of the carry loop for byte < 0xFF, byte == 0xFF at index > 0 and
+// byte == 0xFF at index 0.
+func checkCpIncrTable(c *Ctx, l *Loaded, rule, label string, fn *ssa.Function) {
+	if fn == nil {
+		c.anchorMissing(rule, label)
+		return
+	}
+	for _, sc := range []struct {
+		name string
+		b    int64
+		i    int64
+		want string
+	}{
+		{"last byte < 0xFF", 0x10, 2, "elem:=(elem+1) ; return value"},
+		{"byte == 0xFF at index > 0", 0xFF, 2, "elem:=0 ; <loop>"},
+		{"byte == 0xFF at index 0", 0xFF, 0, "elem:=0 ; return nil"},
+	} {
+		sc := sc
+		env := &tableEnv{l: l, flag: map[string]int{}, cmp: func(a, b string) (int, bool) { return 0, false }}
+		env.ints = func(v ssa.Value, role string) (int64, bool) {
+			if _, isPhi := stripTrivial(v).(*ssa.Phi); isPhi {
+				return sc.i, true // loop index
+			}
+			switch {
+			case strings.HasSuffix(role, "[i]"):
+				return sc.b, true
+			case role == "len(arg0)":
+				return 3, true
+			case strings.HasPrefix(role, "(len(arg0)-1)"):
+				return sc.i, true
+			}
+			return 0, false
+		}
+		run := runTableS(fn, env, func(call *ssa.Call) string { return "" }, func(st *ssa.Store) string {
+			if _, ok := st.Addr.(*ssa.IndexAddr); ok {
+				v := stripTrivial(st.Val)
+				if k, isC := constInt(v); isC {
+					return fmt.Sprintf("elem:=%d", k)
+				}
+				if bo, ok := v.(*ssa.BinOp); ok && bo.Op == token.ADD {
+					if k, isC := constInt(bo.Y); isC && k == 1 {
+						return "elem:=(elem+1)"
+					}
+				}
+				return "elem:=?"
+			}
+			return ""
+		})
+		got := strings.Join(run.events, " ; ")
+		if run.ret != nil {
+			if isNilConst(stripTrivial(retVal(run.ret, 0))) {
+				got += " ; return nil"
+			} else {
+				got += " ; return value"
+			}
+		} else if run.stuck != nil {
+			got += " ; stuck at " + l.ipos(run.stuck)
+		}
+		c.decide(rule, label+": "+sc.name, l.pos(fn.Pos()), got == sc.want, got, "does `"+got+"`, increment-with-carry is `"+sc.want+"` (a 0xFF byte becomes 0x00 and the carry moves left; all-0xFF overflows to nil)")
+	}
+}
